@@ -1,3 +1,4 @@
+import re
 """Rule infrastructure: obligations, per-config context with role locators."""
 import hir
 from hir import walk, calls, rel, fmt
@@ -62,6 +63,41 @@ def spill_role_fns(facts):
                 changed = True
     return [fns[p] for p in sorted(M)]
 
+
+
+def role_param(fa, f, kind, nth=0):
+    """the interpreter's term for the parameter of `f` that plays a role its TYPE identifies (parameter names are free to change):
+    compression = the Compression value; entries = the entry slice; range = the RangeBounds filter; u64 = a plain u64 (nth of them, in order);
+    bytes = the caller's byte content (&[u8] / impl Into<Vec<u8>>)"""
+    out = []
+    for n, prm in zip(fa.param_names, f["params"]):
+        t = prm["ty"] or ""
+        tt = re.sub(r"&('\w+ )?(mut )?", "", t).strip()
+        ok = {"compression": tt.endswith("compression::Compression"),
+              "entries": "[directory::Entry]" in t,
+              "range": "RangeBounds" in t and tt.split("<")[0] not in (getattr(getattr(fa, "facts", None), "adts", {}) or {}),
+              "u64": tt == "u64",
+              "u32": tt == "u32",
+              "entryvec": "Vec<directory::Entry>" in t,
+              "bytes": tt == "[u8]" or "Into<Vec<u8>>" in t or "Into<alloc::vec::Vec<u8>>" in t}[kind]
+        if ok:
+            out.append(V("param:" + n))
+    if len(out) <= nth:
+        # … or a field of a local struct the function receives (invariant arguments bundled into one parameter)
+        adts = getattr(getattr(fa, "facts", None), "adts", {}) or {}
+        for n, prm in zip(fa.param_names, f["params"]):
+            tt = re.sub(r"&('\w+ )?(mut )?", "", prm["ty"] or "").strip()
+            adt = adts.get(tt.split("<")[0])
+            if not adt or adt.get("kind") != "struct":
+                continue
+            for fld in adt["variants"][0]["fields"]:
+                ft = fld["ty"] or ""
+                ftt = re.sub(r"&('\w+ )?(mut )?", "", ft).strip()
+                okf = {"compression": ftt.endswith("compression::Compression"), "entries": "[directory::Entry]" in ft, "range": "RangeBounds" in ft or (kind == "range" and len(ftt) <= 2 and ftt[:1].isupper()),
+                       "u64": ftt == "u64", "u32": ftt == "u32", "entryvec": "Vec<directory::Entry>" in ft, "bytes": ftt == "[u8]"}[kind]
+                if okf:
+                    out.append(("f", V("param:" + n), fld["name"]))
+    return out[nth] if len(out) > nth else V("param:<no %s parameter>" % kind)
 
 class Ctx:
     """facts of one feature config + memoised analyses + role locators"""
@@ -162,7 +198,11 @@ class Ctx:
             if "Box<" in f["ret"] and "dyn " in f["ret"] and f["path"] not in self._factory_impls()[1]:
                 out.add(f["path"])
             if any(n.startswith("integer_encoding::") for n in names):
-                out.add(f["path"])
+                # the directory codec proper builds the codec it reads/writes through (or is public); a private function that is merely handed the codec
+                # and moves one column of varints is a helper of it, evaluated in place like any other
+                builds_codec = any(n in facts.fns and "Box<" in facts.fns[n]["ret"] and "dyn " in facts.fns[n]["ret"] for n in names)
+                if builds_codec or f["vis"] == "pub" or f["path"] in names:
+                    out.add(f["path"])
             if f["path"] in spill:
                 out.add(f["path"])
             if has("tile_manager::FinishResult"):
@@ -231,6 +271,26 @@ class Ctx:
                         return True
                     work.append(h)
         return False
+
+    def inl_closure(self, f):
+        """f together with the local functions the interpreter evaluates in place inside it (transitively)"""
+        out, seen, work = [f], {f["path"]}, [f]
+        while work:
+            g = work.pop()
+            for c in calls(g["body"]):
+                h = self.fn(c["fn"])
+                if h is not None and h.get("body") is not None and h["path"] in self.inlinable and h["path"] not in seen:
+                    seen.add(h["path"])
+                    out.append(h)
+                    work.append(h)
+        return out
+
+    def calls_inl(self, f):
+        """callee paths of f and of the helpers evaluated in place inside it"""
+        return set(c["fn"] for g in self.inl_closure(f) for c in calls(g["body"]))
+
+    def has_struct_inl(self, f, adt):
+        return any(self.has_struct(g, adt) for g in self.inl_closure(f))
 
     def callgraph(self):
         if "cg" not in self._roles:
